@@ -478,6 +478,7 @@ func (f *sendFilter) Append(ctx context.Context, headers api.HeaderMap, buf buff
 // ---------------------------------------------------------------------------
 // one-time initialisation of the real managers
 
+var groupClusters sync.Map
 var initOnce sync.Once
 var clusterMng types.ClusterManager
 
@@ -506,12 +507,15 @@ func initEnv() {
 func setupHistory(h *hist) (api.ReadFilter, *fakeConn, context.Context, error) {
 	sp := h.spec
 	h.cluster = fmt.Sprintf("c%d", h.id)
+	if sp.GroupKey != "" {
+		h.cluster = sp.GroupKey
+	}
 	h.listener = fmt.Sprintf("l%d", h.id)
 	rname := fmt.Sprintf("r%d", h.id)
 	histReg.Store(h.id, h)
 
 	// cluster + hosts (unless the route is meant to point to a missing cluster)
-	if sp.Route != "nocluster" {
+	if _, exists := groupClusters.LoadOrStore(h.cluster, true); sp.Route != "nocluster" && !(exists && sp.GroupKey != "") {
 		cc := v2.Cluster{
 			Name: h.cluster, ClusterType: v2.SIMPLE_CLUSTER, LbType: v2.LB_ROUNDROBIN, MaxRequestPerConn: 1024, ConnBufferLimitBytes: 32768,
 		}
